@@ -21,8 +21,16 @@ Clauses -> subchecks
     C06.copy.equal / C06.copy.type          a copy equals its source (coordinates, elements, attributes if asked for)
     C06.copy.no_shared_state                no mutable object / array memory is reachable from both copy and source
     C06.merge.union / C06.merge.type        disjoint union, indices shifted by the running vertex count, class of
-                                            the highest dimension
-    C06.merge.isolation                     editing the result never changes an input, nor the reverse
+                                            the highest dimension; every element kind (edges, faces, cells), whatever
+                                            the setting of the two completion switches of mouette.config at merge time
+    C06.merge.union_order                   ... in input order: element k of input i has index k + running element count
+    C06.merge.isolation                     editing the result never changes an input, nor the reverse (coordinates)
+    C06.merge.no_shared_state               ... for every mutable piece of state: no mutable object / array memory is
+                                            reachable from both the result and another live mesh (structural)
+    C06.merge.element_isolation             ... an element row (edge / face / cell) edited in one mesh - rebound through
+    C06.copy.element_isolation              the container or assigned in place when the row is a list / numpy row -
+    C06.producer.element_isolation          changes that row of that mesh only (event "edit", undone afterwards)
+    C06.producer.no_shared_state            a producer that derives a mesh from another one shares nothing with it
     C06.merge.same_mesh_twice               ... even when the same mesh is merged twice
     C06.transform.map                       every vertex is moved by exactly the requested map
     C06.transform.each_vertex_once          ... exactly once, whatever way the mesh was produced
@@ -191,13 +199,13 @@ MENUS = {
         rotate=[f"m:{RZ90}:0", f"o:{RZ270}:0", f"e:{RX90}:0", f"t:{RX270}:0", "o:g+:o", "o:g-:o"],
         scale=["2", "half", "2@o", "half@o", "2@v", "half@v"], scale_xyz=["A", "Ainv", "A@o", "Ainv@o", "A@v"],
         normalize=[True, False, "fit"], to_origin=True, flatten=[2, 0], touch=True,
-        copy=[(False, False), (True, False), (False, True), (True, True)], merge3=True),
+        copy=[(False, False), (True, False), (False, True), (True, True)], merge3=True, edit=True),
     "reduced": dict(
         translate=["T1", "T1n"], rotate=[f"m:{RZ90}:0"], scale=["2", "2@v"], scale_xyz=["A"], normalize=[True], to_origin=True,
-        flatten=[2], touch=False, copy=[(False, False), (True, True)], merge3=False),
+        flatten=[2], touch=False, copy=[(False, False), (True, True)], merge3=False, edit=True),
     "mini": dict(
         translate=["T1"], rotate=[f"o:{RZ270}:0"], scale=[], scale_xyz=[], normalize=[False], to_origin=False,
-        flatten=[2], touch=False, copy=[(False, False)], merge3=False),
+        flatten=[2], touch=False, copy=[(False, False)], merge3=False, edit=True),
 }
 
 
@@ -205,7 +213,11 @@ BIG = ("icosphere1", "spherify_vertices", "dodecahedron", "cylindrify_edges", "d
        "merge.mixed", "icosahedron", "icosphere0")
 
 
-TWO = ("boundary.surface", "boundary.surface.ring", "boundary.volume")      # start with two live meshes
+TWO = ("boundary.surface", "boundary.surface.ring", "boundary.volume", "reorder_vertices")      # start with two live meshes
+
+# the two completion switches of mouette.config read by RawMeshData.prepare(); the first entry is the default
+MERGE_CFGS = [("default", True, True), ("complete_edges_from_faces=False", False, True),
+              ("complete_faces_from_cells=False", True, False)]
 
 
 def tasks(tier):
@@ -330,6 +342,54 @@ def cyc(f):
     return tuple(f[k:] + f[:k])
 
 
+def element_class(el):
+    """coarse, computed class of the element lists of one mesh: how its declared edges relate to its faces
+    (free-standing edge that no face carries / same order as a walk over the faces / another order) and whether it
+    declares a face that no cell carries.  -> {"edges": str, "faces": str}"""
+    out = {"edges": "edges=no_faces", "faces": "faces=no_cells"}
+    F = el.get("faces") or []
+    if F:
+        walk, seen = [], set()
+        for f in F:
+            for i in range(len(f)):
+                a, b = f[i], f[(i + 1) % len(f)]
+                k = (a, b) if a < b else (b, a)
+                if k not in seen:
+                    seen.add(k)
+                    walk.append(k)
+        E = [tuple(sorted(e)) for e in el.get("edges") or ()]
+        if any(e not in seen for e in E):
+            out["edges"] = "edges=free_standing"
+        elif E == walk:
+            out["edges"] = "edges=face_walk_order"
+        elif sorted(E) == sorted(walk):
+            out["edges"] = "edges=other_order"
+        else:
+            out["edges"] = "edges=incomplete"
+    C = [set(c) for c in el.get("cells") or ()]
+    if C:
+        out["faces"] = "faces=free_standing" if any(not any(set(f) <= c for c in C) for f in F) else "faces=of_cells"
+    return out
+
+
+def shifted_union(els, nverts):
+    """the statement's merge: every element list of every input, in input order, vertex indices shifted by the running
+    vertex count.  -> ({kind: list}, {kind: [index of the first element of each input]})"""
+    want = {"edges": [], "faces": [], "cells": []}
+    starts = {"edges": [], "faces": [], "cells": []}
+    off = 0
+    for el, n in zip(els, nverts):
+        for nm in want:
+            starts[nm].append(len(want[nm]))
+            for e in el.get(nm, ()):
+                want[nm].append(tuple(u + off for u in e))
+        off += n
+    return want, starts
+
+
+NORM = {"edges": lambda e: tuple(sorted(e)), "faces": cyc, "cells": lambda c: c}
+
+
 # ---------------------------------------------------------------------------------------------------
 # reference model
 def model_map(ev, V):
@@ -402,7 +462,8 @@ PRIMITIVE = {"translate": "transform.translate", "normalize": "transform.transla
              "scale_xyz": "transform.scale_xyz"}
 CALLEE = {"translate": "transform.translate", "normalize": "transform.normalize", "to_origin": "transform.translate_to_origin",
           "flatten": "transform.flatten", "rotate": "transform.rotate", "scale": "transform.scale",
-          "scale_xyz": "transform.scale_xyz", "copy": "mesh.copy", "merge": "mesh.merge", "touch": "connectivity"}
+          "scale_xyz": "transform.scale_xyz", "copy": "mesh.copy", "merge": "mesh.merge", "touch": "connectivity",
+          "edit": "DataContainer.__setitem__"}
 TRANSFORMS = ("translate", "rotate", "scale", "scale_xyz", "normalize", "to_origin", "flatten")
 
 
@@ -423,7 +484,7 @@ def param_class(ev):
 
 # ---------------------------------------------------------------------------------------------------
 class Live:
-    __slots__ = ("real", "label", "kind", "parents", "V", "el", "mtype", "exact", "tol", "attrs")
+    __slots__ = ("real", "label", "kind", "parents", "V", "el", "mtype", "exact", "tol", "attrs", "blocks")
 
 
 class Caller:
@@ -471,7 +532,7 @@ def make(task, ctx):
         off = len(st.live)
         for m, label in b.meshes:
             L = Live()
-            L.real, L.label, L.kind, L.parents, L.tol = m, label, "base", [], 1e-9
+            L.real, L.label, L.kind, L.parents, L.tol, L.blocks = m, label, "base", [], 1e-9, None
             sync(L)
             st.live.append(L)
         for i, j, label in b.links:
@@ -645,6 +706,27 @@ def shared_state(a, b):
     return sorted(set(shared))
 
 
+def shared_with(new, others):
+    """[(k, paths in others[k] of mutable objects / array memory also reachable from `new`)] (non-empty ones only)"""
+    import numpy as np
+    ids_n, arr_n, _ = mutable_graph(new)
+    out = []
+    for k, o in enumerate(others):
+        _, arr_o, shared = mutable_graph(o, stop_ids=ids_n)
+        for lo, hi, x, path in arr_o:
+            for lo2, hi2, y, _p in arr_n:
+                if lo < hi2 and lo2 < hi and np.shares_memory(x, y):
+                    shared.append(path)
+                    break
+        if shared:
+            out.append((k, sorted(set(shared))))
+    return out
+
+
+def path_tops(paths):
+    return "+".join(sorted({p.split(".")[0].split("[")[0] for p in paths}))
+
+
 # ---------------------------------------------------------------------------------------------------
 class Run:
     def __init__(self, task, rep: Report, ctx):
@@ -700,6 +782,9 @@ class Run:
                         evs.append(("merge", (i, j)))
             if mn["merge3"] and n >= 2:
                 evs.append(("merge", (0, 1, 0)))
+        if mn["edit"]:
+            for i in range(n):
+                evs.append(("edit", i))
         return evs
 
     # -- comparing every live object with its model ----------------------------------------------
@@ -901,6 +986,8 @@ class Run:
             bad = self._merge(st, ev, check)
         elif kind == "touch":
             bad = self._touch(st, ev, check)
+        elif kind == "edit":
+            bad = self._edit(st, ev, check)
         else:
             raise AssertionError(ev)
         if bad or resync:
@@ -1033,7 +1120,7 @@ class Run:
 
     def _new_live(self, st, real, kind, parents, label):
         L = Live()
-        L.real, L.label, L.kind, L.parents = real, label, kind, list(parents)
+        L.real, L.label, L.kind, L.parents, L.blocks = real, label, kind, list(parents), None
         L.tol = max(st.live[p].tol for p in parents)
         sync(L)                                      # elements / attributes / class as observed; V and exact set by the caller
         L.tol = max(L.tol, max(st.live[p].tol for p in parents))
@@ -1096,8 +1183,52 @@ class Run:
                       "shared=" + "+".join(tops) + (":copy_connectivity=True" if cc else ""),
                       {"event": list(ev), "mesh_producer": X.label, "shared_paths_in_copy": sh[:10]})
             rep.count("copy_shared_state_reports")      # structural: the models are not touched
+        bad = self.probe_rows(st, len(st.live) - 1, ev) or bad
         bad = self.compare_all(st, ev, [len(st.live) - 1], skip=skip) or bad
         return bad
+
+    @staticmethod
+    def _merge_under(reals, edges_from_faces, faces_from_cells):
+        """merge(reals) while the two completion switches (process-global) have the given values; always restored"""
+        import mouette as M
+        cfg = M.config
+        old = (cfg.complete_edges_from_faces, cfg.complete_faces_from_cells)
+        cfg.complete_edges_from_faces, cfg.complete_faces_from_cells = edges_from_faces, faces_from_cells
+        try:
+            return call(M.mesh.merge, reals)
+        finally:
+            cfg.complete_edges_from_faces, cfg.complete_faces_from_cells = old
+
+    def check_union(self, z, ins, ev, icls, want, want_type, wv):
+        """the result z of merge(ins) against the statement: class, vertices, every element list.
+        -> (something reported, the vertices are wrong)"""
+        bad = vbad = False
+        if type(z).__name__ != want_type:
+            self.viol("C06.merge.type", "mesh.merge", "mismatch:class", icls, {"event": list(ev), "got": type(z).__name__, "want": want_type})
+            bad = True
+        zv, _ = read_vertices(z)
+        if zv != wv:
+            self.viol("C06.merge.union", "mesh.merge", "mismatch:coordinates", icls,
+                      {"event": list(ev), "producers": [x.label for x in ins], "got": zv, "want": wv})
+            bad = vbad = True
+        got = read_elements(z)
+        for nm in ("edges", "faces", "cells"):
+            g = [NORM[nm](e) for e in got.get(nm, ())]
+            w = [NORM[nm](e) for e in want[nm]]
+            self.rep.evaluations += 1
+            if g == w:
+                continue
+            det = {"event": list(ev), "producers": [x.label for x in ins], "got": got.get(nm), "want": want[nm]}
+            if sorted(g) != sorted(w):
+                self.viol("C06.merge.union", "mesh.merge", "mismatch:" + nm, icls, det)
+            else:
+                k = next(i for i in range(len(g)) if g[i] != w[i])
+                det["first_index_that_differs"] = k
+                key = "faces" if nm == "cells" else "edges"
+                cls = "+".join(sorted({element_class(x.el)[key] for x in ins})) if nm != "cells" else "cells"
+                self.viol("C06.merge.union_order", "mesh.merge", "mismatch:%s_index" % nm, icls + ":" + cls, det)
+            bad = True
+        return bad, vbad
 
     def _merge(self, st, ev, check):
         import mouette as M
@@ -1115,48 +1246,171 @@ class Run:
                           {"event": list(ev), "producers": [x.label for x in ins], "msg": o.msg})
             return True
         z = o.value
+        want, starts = shifted_union([x.el for x in ins], [len(x.V) for x in ins])
         L = self._new_live(st, z, "merge", idxs, "merge")
         L.V = [p for x in ins for p in x.V]
         L.exact = all(x.exact for x in ins)
+        L.blocks = starts
         if not check:
             return False
+        new = len(st.live) - 1
         rep.flag("event:merge")
         rep.flag("merge:" + shape)
         rep.flag("merge:" + "+".join(sorted({x.mtype for x in ins})))
-        rep.evaluations += 3
-        bad = False
-        skip = ()
-        icls = "inputs=" + "+".join(sorted({x.mtype for x in ins})) + ":" + shape
-        want_type = max((x.mtype for x in ins), key=ORDER.index)
-        if type(z).__name__ != want_type:
-            self.viol("C06.merge.type", "mesh.merge", "mismatch:class", icls, {"event": list(ev), "got": type(z).__name__, "want": want_type})
-            bad = True
-        zv, _ = read_vertices(z)
-        wv = [p for x in ins for p in read_vertices(x.real)[0]]
-        if zv != wv:
-            self.viol("C06.merge.union", "mesh.merge", "mismatch:coordinates", icls,
-                      {"event": list(ev), "producers": [x.label for x in ins], "got": zv, "want": wv})
-            bad, skip = True, (len(st.live) - 1,)
-        want = {"edges": [], "faces": [], "cells": []}
-        off = 0
         for x in ins:
-            el = read_elements(x.real)
-            for nm in want:
-                for e in el.get(nm, ()):
-                    want[nm].append(tuple(u + off for u in e))
-            off += len(x.V)
-        got = read_elements(z)
-        norm = {"edges": lambda e: tuple(sorted(e)), "faces": cyc, "cells": lambda c: c}
-        for nm in ("edges", "faces", "cells"):
-            g = sorted(norm[nm](e) for e in got.get(nm, ()))
-            w = sorted(norm[nm](e) for e in want[nm])
-            if g != w:
-                self.viol("C06.merge.union", "mesh.merge", "mismatch:" + nm, icls,
-                          {"event": list(ev), "producers": [x.label for x in ins], "got": got.get(nm), "want": want[nm]})
+            for c in element_class(x.el).values():
+                rep.flag("merge_input:" + c)
+        rep.evaluations += 3
+        skip = ()
+        types = "inputs=" + "+".join(sorted({x.mtype for x in ins}))
+        icls = types + ":" + shape
+        want_type = max((x.mtype for x in ins), key=ORDER.index)
+        wv = [p for x in ins for p in read_vertices(x.real)[0]]
+        bad, vbad = self.check_union(z, ins, ev, icls, want, want_type, wv)
+        if vbad:
+            skip = (new,)
+        # ---- the same merge under the other settings of the completion switches (result not kept live)
+        for cfgname, ce, cf in MERGE_CFGS[1:]:
+            if not any(("cells" if not cf else "faces") in x.el for x in ins):
+                rep.count("merge_cfg_not_applicable")          # the switch is about inputs that have faces (cells)
+                continue
+            o2 = self._merge_under([x.real for x in ins], ce, cf)
+            rep.flag("merge_cfg:" + cfgname)
+            rep.count("merge_cfg_variants")
+            if not o2.ok:
+                self.viol("C06.merge.answers", "mesh.merge", "raises:" + o2.exc, types + ":" + cfgname,
+                          {"event": list(ev), "config": cfgname, "producers": [x.label for x in ins], "msg": o2.msg})
                 bad = True
+                continue
+            b2, _ = self.check_union(o2.value, ins, list(ev) + [cfgname], types + ":" + cfgname, want, want_type, wv)
+            rep.outcome("merge_cfg", (cfgname, "violation" if b2 else "ok", len(read_elements(o2.value).get("edges", ()))))
+            bad = b2 or bad
+        # ---- structural: nothing mutable is reachable from the result and from another live mesh
+        others = [w for w in range(len(st.live)) if w != new]
+        rep.count("merge_shared_state_checks", len(others))
+        rep.evaluations += len(others)
+        for k, paths in shared_with(z, [st.live[w].real for w in others]):
+            w = others[k]
+            self.viol("C06.merge.no_shared_state", "mesh.merge", "side_effect:shared_mutable_state",
+                      "shared=" + path_tops(paths) + ("" if w in idxs else ":with_a_mesh_that_is_not_an_input"),
+                      {"event": list(ev), "other_mesh": w, "other_mesh_producer": st.live[w].label,
+                       "shared_paths_in_other_mesh": paths[:10]})
+            rep.count("merge_shared_state_reports")                # structural: the models are not touched
         rep.outcome("merge", (icls, "violation" if bad else "ok"))
-        bad = self.compare_all(st, ev, [len(st.live) - 1], skip=skip) or bad
+        bad = self.probe_rows(st, new, ev) or bad
+        bad = self.compare_all(st, ev, [new], skip=skip) or bad
         return bad
+
+    # -- editing one element row -------------------------------------------------------------------
+    def probe_rows(self, st, i, ev):
+        """Edits rows of the element containers of live mesh i - first, middle, last row and the first row of every
+        input block of a merge - (a) by rebinding the row through the container, (b) when the row object is mutable
+        (list, numpy row) by assigning one item in place; after each edit every live mesh is read back: exactly
+        that row of that mesh may differ.  Every edit is undone.  -> True if anything was reported"""
+        import numpy as np
+        rep = self.rep
+        X = st.live[i]
+        m = X.real
+        nv = len(X.V)
+        done = set()
+
+        def report(fp, det):
+            if fp not in done:
+                done.add(fp)
+                self.viol(*fp, det)
+
+        for nm in ("edges", "faces", "cells"):
+            c = getattr(m, nm, None)
+            if c is None or len(c) == 0 or nm not in X.el or len(c) != len(X.el[nm]):
+                continue
+            n = len(c)
+            rows = {0, n // 2, n - 1}
+            if X.blocks:
+                rows |= {k for k in X.blocks[nm] if k < n}
+            for k in sorted(rows):
+                old = c[k]
+                items = list(old)                                  # the very item objects (restored as they were)
+                vals = [int(u) for u in old]
+                newv = list(vals)
+                other = next((u for u in range(nv) if u not in vals), None)
+                if other is not None:
+                    newv[-1] = other                              # another valid vertex index
+                elif len(vals) >= 2 and vals[0] != vals[-1]:
+                    newv[0], newv[-1] = vals[-1], vals[0]
+                else:
+                    rep.count("edit_rows_skipped")
+                    continue
+                modes = ["rebind"]
+                if isinstance(old, (list, np.ndarray)):
+                    modes.append("assign")
+                for mode in modes:
+                    if mode == "rebind":
+                        o = call(c.__setitem__, k, tuple(newv))
+                        if not o.ok:
+                            report(("C06.edit.answers", "DataContainer.__setitem__", "raises:" + o.exc, nm),
+                                   {"event": list(ev), "mesh": i, "row": k, "msg": o.msg})
+                            continue
+                        cls = nm + ":row_rebound_in_container"
+                        rep.count("edit_rows_rebound")
+                    else:
+                        for j in range(len(vals)):
+                            if newv[j] != vals[j]:
+                                old[j] = newv[j]
+                        cls = nm + ":item_assigned_in_row:row=" + type(old).__name__
+                        rep.count("edit_rows_assigned:" + type(old).__name__)
+                    # ---- read everything back
+                    for y, L in enumerate(st.live):
+                        got = read_elements(L.real)
+                        rep.evaluations += 1
+                        exp = L.el
+                        if y == i:
+                            exp = dict(exp)
+                            exp[nm] = list(exp[nm])
+                            exp[nm][k] = tuple(newv)
+                        if got == exp:
+                            continue
+                        wrong = sorted((a, r) for a in got for r in range(max(len(got[a]), len(exp.get(a, ()))))
+                                       if r >= len(got[a]) or r >= len(exp.get(a, ())) or got[a][r] != exp[a][r])
+                        det = {"event": list(ev), "edited_mesh": i, "edited_mesh_producer": X.label, "container": nm, "row": k,
+                               "row_was": vals, "row_set_to": newv, "how": mode, "changed_mesh": y,
+                               "changed_mesh_producer": L.label, "rows_that_differ_from_the_expectation": wrong[:6]}
+                        if y != i:
+                            lab = link_toward(st, ("m", i), ("m", y))
+                            if lab == "merge":
+                                fp = ("C06.merge.element_isolation", "mesh.merge", "side_effect:other_mesh_changed", cls)
+                            elif lab == "copy":
+                                fp = ("C06.copy.element_isolation", "mesh.copy", "side_effect:other_mesh_changed", cls)
+                            elif lab is None:
+                                fp = ("C06.edit.isolation", CALLEE["edit"], "side_effect:other_mesh_changed",
+                                      "unrelated_meshes_share_element_storage:" + cls)
+                            else:
+                                fp = ("C06.producer.element_isolation", lab, "side_effect:other_mesh_changed", cls)
+                        elif (nm, k) in wrong:
+                            fp = ("C06.edit.one_row", CALLEE["edit"], "mismatch:edited_row", cls)
+                        elif X.kind == "merge" and len(set(X.parents)) < len(X.parents):
+                            fp = ("C06.merge.same_mesh_twice", "mesh.merge", "mismatch:row_edited_twice",
+                                  "merge([a,a]):both_occurrences_share_element_rows:" + cls)
+                        else:
+                            fp = ("C06.edit.one_row", CALLEE["edit"], "mismatch:other_row_changed",
+                                  X.label + ":two_rows_share_one_object:" + cls)
+                        report(fp, det)
+                    # ---- undo
+                    if mode == "rebind":
+                        c._data[k] = old
+                    else:
+                        for j in range(len(vals)):
+                            if newv[j] != vals[j]:
+                                old[j] = items[j]
+        return bool(done)
+
+    def _edit(self, st, ev, check):
+        if not check:
+            return False                                 # every edit is undone: no net effect to replay
+        self.rep.flag("event:edit")
+        bad = self.probe_rows(st, ev[1], ev)
+        self.rep.outcome("edit", ("violation" if bad else "confined", tuple(sorted(
+            {type(r).__name__ for nm in ("edges", "faces", "cells") for r in (getattr(st.live[ev[1]].real, nm, None) or ())}))))
+        return self.compare_all(st, ev, []) or bad
 
     # -- search ----------------------------------------------------------------------------------
     def replay(self, hist):
@@ -1176,6 +1430,17 @@ class Run:
                 self.rep.flag("inexact_start")
         if st.callers:
             self.rep.flag("caller_arrays")
+        # a producer that derives a mesh from another one hands out a mesh that shares nothing mutable with it
+        for a, b, lab in st.links:
+            if a[0] != "m" or b[0] != "m":
+                continue
+            self.rep.count("producer_link_checks")
+            self.rep.evaluations += 1
+            for _k, paths in shared_with(st.live[b[1]].real, [st.live[a[1]].real]):
+                sub = "C06.merge.no_shared_state" if lab == "merge" else "C06.producer.no_shared_state"
+                self.viol(sub, "mesh.merge" if lab == "merge" else lab, "side_effect:shared_mutable_state",
+                          "shared=" + path_tops(paths),
+                          {"derived_mesh": b[1], "source_mesh": a[1], "producer": lab, "shared_paths_in_source": paths[:10]})
 
     def explore(self):
         rep = self.rep
@@ -1284,20 +1549,25 @@ def finish(tier, rep: Report):
     ran = rep.counters.get("bfs_tasks", 0)
     if ran < len(PRODUCERS) or sum(1 for f in rep.flags if f.startswith("producer:")) < len(PRODUCERS):
         return fails                                     # --only run: the guards below are about the full sweep
-    if len(PRODUCERS) != 65:
-        fails.append(f"producer registry has {len(PRODUCERS)} entries, pinned count is 65")
+    if len(PRODUCERS) != 69:
+        fails.append(f"producer registry has {len(PRODUCERS)} entries, pinned count is 69")
     for n in PRODUCERS:
         if "producer:" + n not in rep.flags:
             fails.append("producer never explored: " + n)
-    for k in TRANSFORMS + ("copy", "merge", "touch"):
+    for k in TRANSFORMS + ("copy", "merge", "touch", "edit"):
         if "event:" + k not in rep.flags:
             fails.append("event kind never executed: " + k)
     for f in ("class:PointCloud", "class:PolyLine", "class:SurfaceMesh", "class:VolumeMesh", "live=3", "merge:same_mesh_twice",
               "merge:distinct", "exact_start", "inexact_start", "caller_arrays",
-              "copy:copy_attributes=True,copy_connectivity=True", "copy:copy_attributes=False,copy_connectivity=False"):
+              "copy:copy_attributes=True,copy_connectivity=True", "copy:copy_attributes=False,copy_connectivity=False",
+              "merge_cfg:complete_edges_from_faces=False", "merge_cfg:complete_faces_from_cells=False",
+              "merge_input:edges=free_standing", "merge_input:edges=other_order", "merge_input:edges=face_walk_order",
+              "merge_input:edges=no_faces", "merge_input:faces=free_standing", "merge_input:faces=of_cells"):
         if f not in rep.flags:
             fails.append("coverage flag missing: " + f)
-    for c in ("exact_comparisons", "inverse_pair_checks", "normalize_box_checks", "rotsweep_histories", "transform_events"):
+    for c in ("exact_comparisons", "inverse_pair_checks", "normalize_box_checks", "rotsweep_histories", "transform_events",
+              "merge_shared_state_checks", "merge_cfg_variants", "producer_link_checks", "edit_rows_rebound",
+              "edit_rows_assigned:list", "edit_rows_assigned:ndarray"):
         if rep.counters.get(c, 0) == 0:
             fails.append("never evaluated: " + c)
     if not any(f.startswith("merge:") and "+" in f for f in rep.flags):
